@@ -233,13 +233,18 @@ def call_builtin(ex, name, args, kwargs, node):
     if name == 'functools.partial':
         fn = args[0]
         if not isinstance(fn, E.FuncRef): raise Unsupported('functools.partial of a non-function')
-        tyname = ex.w.partial_types.get(fn.node.name)
+        tyname = ex.w.partial_types.get(getattr(fn, 'qual', None)) or ex.w.partial_types.get(fn.node.name)
         if tyname is None: raise Unsupported('functools.partial(%s) has no declared record type' % fn.node.name)
         ty = ex.w.ty(tyname)
         vals = {}
+        fnames = [f for f, _ in ty.fields]
+        extras = {k: v for k, v in kwargs.items() if k not in fnames and k != '**'}      # keyword arguments from an expanded keyword bag
         for f, fty in ty.fields:
             if f in kwargs: vals[f] = ex.co(kwargs[f], fty)
-            elif f == 'kw': vals[f] = ex.co(kwargs.get('**', V(TTuple([]), [])), fty)
+            elif f == 'kw':
+                m = ex.co(kwargs.get('**', V(TTuple([]), [])), fty)
+                for k, v in extras.items(): m = setitem(ex, m, vstr(k), ex.val(v))
+                vals[f] = m
             else: raise Unsupported('partial: field %s not bound' % f)
         return V(ty, vals)
     raise Unsupported('builtin %s' % name)
